@@ -119,7 +119,7 @@ def renderEnts (es : List Ent) : List String :=
 /-- Fault position in the model: number of pre-commit closures that ran before the failure. -/
 def faultK (ev : String) (n : Nat) : Nat :=
   if ev.startsWith "pre" then (ev.drop 3).toString.toNat!
-  else if ev == "commit" then n else 0
+  else if ev == "commit" || ev == "commit-stmt" then n else 0
 
 def evClass (ev : String) : String :=
   if ev.startsWith "pre" then "precommit-hook" else ev
@@ -209,7 +209,9 @@ def judgeCase (_k : Nat) (lines : List String) : Verdict := Id.run do
       let regs := regsOf fCalls
       if !regs.isEmpty then nFaultsRegs := nFaultsRegs + 1
       let k := if fEv.startsWith "ps." then 0 else faultK fEv regs.length
-      let pred := renderFiles (commitFault rev regs k (filesOf dir0)).files dir0 fCalls
+      let predFs := if fEv == "commit-stmt" then (commitStmtFault rev regs (filesOf dir0)).files
+        else (commitFault rev regs k (filesOf dir0)).files
+      let pred := renderFiles predFs dir0 fCalls
       if pred != renderEnts after then
         div := div ++ [s!"{tag}:directory:model={pred},impl={renderEnts after}"]
       -- the next call (another faulted attempt or the normal execution) starts from here
